@@ -193,7 +193,10 @@ _CLEAN = z3.Function("clean(spaces, dashes)", z3.StringSort(), z3.StringSort())
 def _db_setup(it, args):
     from pyvc.values import SStr as _S
     g = it.run.ghost
-    it.genv.vars["to_unicode"] = SStub(lambda i, a, k: a[0], "to_unicode", trusted="text given as text is returned as is")
+    def to_u(i, a, k):
+        v = i.resolve(a[0])
+        return _S(i.to_z3(v), "str") if getattr(v, "kind", None) == "bytes" else v
+    it.genv.vars["to_unicode"] = SStub(to_u, "to_unicode", trusted="text is returned as is, ASCII bytes as the same characters")
     it.genv.vars["_clean_re"] = SObj("_clean_re", fields={"sub": SStub(lambda i, a, k: _S(_CLEAN(i.to_z3(a[1])), "str"), "_clean_re.sub", trusted="regex: uninterpreted")})
 
     def rec(name):
@@ -246,6 +249,21 @@ def ref_base32(k):
     return base64.b32decode(k + '=' * (-len(k) % 8))
 """
 
+from pyvc.contract import Bytes as _BytesP  # noqa: E402
+
+for _fmt, _name in (("hex", "hex"), ("base32", "base32")):
+    CONTRACTS.append(Contract(
+        f"_decode_bytes[{_fmt}, ASCII bytes key]", f"{T}::_decode_bytes",
+        params={"key": _BytesP(), "format": Const(_fmt)},
+        setup=_db_setup,
+        requires=[lambda it, env: it.all_codes_below(it.to_z3(env.lookup("key")), 128)],
+        raises={"UnicodeEncodeError": None},
+        ensures=[(f"a key given as ASCII bytes is cleaned exactly like the same key given as text before the {_name} decoder sees it", _db_post(_name))],
+        replay=py_replay(_DB_REF, "r = (attempt(lambda: _decode_bytes(V['key'].encode('ascii'), %r)), attempt(lambda: ref_%s(V['key'])))" % (_fmt, _name), "exc is None and r[0] == r[1]",
+                         {"key": "e01c-630c 2184-b076-ce99" if _name == "hex" else "4aog gdbb qsyh ntuz"},
+                         search=lambda v, _n=_name: [dict(v, key=k) for k in (("e01c-630c 2184-b076-ce99", "E01C630C", " e0 1c ") if _n == "hex" else ("4aog gdbb qsyh ntuz", "4AOGGDBB", " 4aog-gdbb "))]),
+        descr="any ASCII bytes key; the cleaning regex and the decoders abstract",
+    ))
 for _fmt, _name in (("hex", "hex"), ("base16", "hex"), ("base32", "base32")):
     CONTRACTS.append(Contract(
         f"_decode_bytes[{_fmt}]", f"{T}::_decode_bytes",
